@@ -251,7 +251,7 @@ def _sibling_filters(ctx: Ctx, item):
             try:
                 frames = wire.segment(payload, (d.index + sib.index) % 8) if d.fast else [payload]
                 for fr in frames:
-                    r = dec.decode_tcp(wire.ebyte(wire.ident(pgn, 1, dest, 3), fr))
+                    r = wire.owned(dec.decode_tcp, wire.ebyte(wire.ident(pgn, 1, dest, 3), fr), view=bool((d.index + sib.index) % 2))
             except Exception as e:
                 r = e
             ctx.count()
@@ -262,6 +262,43 @@ def _sibling_filters(ctx: Ctx, item):
                            {"pgn": pgn, "sibling_filter": [d.key, sib.id]})
     ctx.nontrivial_extra += n
     ctx.klass("sibling_excluded_by_id_cases", n)
+    # ONE decoder that has first been given every definition of the PGN the library cannot decode (unsupported field types: it raises),
+    # every definition once pre-assembled, and then every supported definition frame by frame: each is returned as itself
+    dec = NMEA2000Decoder()
+    dest = 255 if ((pgn >> 8) & 0xFF) >= 240 else 7
+    m = 0
+    seq = 0
+    for phase in ("unsupported", "combined", "frames"):
+        for d in db.by_pgn[pgn]:
+            if (phase == "unsupported") != (not d.supported):
+                continue
+            try:
+                bp, bn, _ = gen.benign_payload(d)
+            except Exception:
+                continue
+            if bn > 223 or (phase != "combined" and not d.fast and bn > 8):
+                continue
+            payload = bp.to_bytes(bn, "little")
+            r = None
+            try:
+                if phase == "combined":
+                    r = dec.decode_basic_string(gen.basic_string(pgn, bp, bn, src=1, dest=dest), already_combined=True)
+                else:
+                    seq = (seq + 1) % 8          # every message of the stream carries the next sequence counter
+                    for fr in (wire.segment(payload, seq) if d.fast else [payload]):
+                        r = wire.owned(dec.decode_tcp, wire.ebyte(wire.ident(pgn, 1, dest, 3), fr), view=bool(seq % 2))
+            except Exception as e:
+                r = e
+            if phase == "unsupported" or db.select(pgn, bp) is not d:
+                continue
+            ctx.count()
+            m += 1
+            if r is None or isinstance(r, Exception) or r.id != d.id:
+                ctx.report(f"C08|sibling-history|{pgn}", f"{d.key} delivered {'pre-assembled' if phase == 'combined' else 'frame by frame'} to a decoder that has seen the PGN's "
+                           f"other definitions (the undecodable ones first) came back as {'nothing' if r is None else repr(r) if isinstance(r, Exception) else r.id}",
+                           {"pgn": pgn, "sibling_filter": [d.key, "history"]})
+    ctx.nontrivial_extra += m
+    ctx.klass("sibling_history_cases", m)
 
 
 def run(ctx: Ctx):
